@@ -57,6 +57,27 @@ def inSet (cfg : Cfg) (cn : Conn) : Bool :=
   (cfg.loopback && inLoopback cn.rip) || (cfg.priv && inPrivate cn.rip) || (cfg.linkLocal && inLinkLocal cn.rip) ||
   cfg.proxies.any (entryCovers cn.rip)
 
+/-! ### CIDR ranges as bit prefixes (RFC 4632) — the reading of `cidrContains` proved in CidrLemmas -/
+
+/-- the eight bits of a byte, most significant first -/
+def byteBits (c : Nat) : List Nat := [c / 128 % 2, c / 64 % 2, c / 32 % 2, c / 16 % 2, c / 8 % 2, c / 4 % 2, c / 2 % 2, c % 2]
+
+def bitsOf (ip : Bytes) : List Nat := ip.flatMap byteBits
+
+/-- the first `n` bits of two addresses agree -/
+def samePrefix (n : Nat) (a c : Bytes) : Bool := (bitsOf a).take n == (bitsOf c).take n
+
+/-- `net.CIDRMask(n, 8*len)`: `n` one bits, then zeros -/
+def cidrMask : Nat → Nat → Bytes
+  | _, 0 => []
+  | n, len + 1 => (if n ≥ 8 then 255 else 256 - 2 ^ (8 - n)) :: cidrMask (n - 8) len
+
+/-- number of leading one bits of a mask -/
+def maskOnes (m : Bytes) : Nat := ((bitsOf m).takeWhile (· == 1)).length
+
+/-- the mask is a prefix mask (what `net.ParseCIDR` produces) -/
+def isPrefixMask (m : Bytes) : Bool := m == cidrMask (maskOnes m) m.length
+
 /-- split on a byte (always at least one piece) -/
 def pieces (sep : Nat) : Bytes → List Bytes
   | [] => [[]]
@@ -129,19 +150,18 @@ def schemeOf (kv : Bytes × Bytes) : Option Bytes :=
 def docScheme (cn : Conn) (hs : Headers) : Bytes :=
   if cn.tls then sHTTPS else ((hs.reverse.filterMap schemeOf).head?).getD sHTTP
 
-/-! ### known findings -/
+/-! ### elements with an over-long group (the region of the repaired defect F5, for the case tags) -/
 
-namespace Known
+/-- some run of hexadecimal digits has five or more of them (`n` = length of the run so far) -/
 def longHexRun : Bytes → Nat → Bool
   | [], n => n ≥ 5
   | c :: cs, n => if isHexDigit c then longHexRun cs (n + 1) else n ≥ 5 || longHexRun cs 0
 
-/-- K1: an element of the consulted header has a group of more than four hex digits and contains a
-    colon (`utils.IsIPv6` only bounds the group's value, `0:0:0:0:0:0:0:00001` passes) -/
-def K1 (cfg : Cfg) (hs : Headers) : Bool :=
+/-- validation is on and an element of a consulted header has a colon and a group of more than four
+    hex digits (`utils.IsIPv6` alone accepts `0:0:0:0:0:0:0:00001`) -/
+def hasLongGroup (cfg : Cfg) (hs : Headers) : Bool :=
   cfg.validate &&
   ((pieces 44 (get hs cfg.normProxyHeader)) ++ (pieces 44 (get hs sXFF))).any fun seg => seg.contains 58 && longHexRun seg 0
-end Known
 
 /-! ### the oracle -/
 
